@@ -890,6 +890,6 @@ package compiler
 //@   requires pass != nil && def.Kind == ast.KindDisjunction
 //@   modifies spare-capacity
 //@   ensures  noerr: result.1 == nil
-//@   ensures  first: old(len(def.Disjunction.Branches) == 2 && constantAndType(def.Disjunction.Branches[0], def.Disjunction.Branches[1])) ==> result.0.Default == old(def.Disjunction.Branches[0].Scalar.Value) && result.0.Kind == ast.KindScalar && result.0.Scalar == old(def.Disjunction.Branches[1].Scalar) && result.0.Nullable == old(def.Disjunction.Branches[1].Nullable)
-//@   ensures  second: old(len(def.Disjunction.Branches) == 2 && constantAndType(def.Disjunction.Branches[1], def.Disjunction.Branches[0])) ==> result.0.Default == old(def.Disjunction.Branches[1].Scalar.Value) && result.0.Kind == ast.KindScalar && result.0.Scalar == old(def.Disjunction.Branches[0].Scalar) && result.0.Nullable == old(def.Disjunction.Branches[0].Nullable)
+//@   ensures  first: old(len(def.Disjunction.Branches) == 2 && constantAndType(def.Disjunction.Branches[0], def.Disjunction.Branches[1])) ==> result.0.Default == old(def.Disjunction.Branches[0].Scalar.Value) && result.0.Kind == ast.KindScalar && result.0.Scalar == old(def.Disjunction.Branches[1].Scalar)
+//@   ensures  second: old(len(def.Disjunction.Branches) == 2 && constantAndType(def.Disjunction.Branches[1], def.Disjunction.Branches[0])) ==> result.0.Default == old(def.Disjunction.Branches[1].Scalar.Value) && result.0.Kind == ast.KindScalar && result.0.Scalar == old(def.Disjunction.Branches[0].Scalar)
 //@   ensures  other: !old(len(def.Disjunction.Branches) == 2 && (constantAndType(def.Disjunction.Branches[0], def.Disjunction.Branches[1]) || constantAndType(def.Disjunction.Branches[1], def.Disjunction.Branches[0]))) ==> result.0 == def
